@@ -358,6 +358,37 @@ func c15(r *Report) {
 	})
 
 	r.Guard("C15.R2", "loggers and snapshots do not edit the message: only Body is ever assigned, headers and trailers are not modified", func() {
+		// nothing filters or compacts one of the message's own slices in place: `x[:0]` followed by
+		// appends rewrites the backing array the message still uses (a header's value list, the
+		// transfer codings)
+		for _, pk := range append([]string{"proxyutil"}, loggerPkgs...) {
+			for _, f := range w.Funcs(pk) {
+				ord := 0
+				for _, in := range instrs(f) {
+					sl, isSl := in.(*ssa.Slice)
+					if !isSl || sl.High == nil {
+						continue
+					}
+					if k, isK := constInt(sl.High); !isK || k != 0 {
+						continue
+					}
+					ord++
+					fresh := false
+					for _, l := range resolveAll(sl.X) {
+						switch x := l.(type) {
+						case *ssa.MakeSlice:
+							fresh = true
+						case *ssa.Alloc:
+							fresh = true
+						case *ssa.Call:
+							fresh = isCallValue(x, "append") || strings.HasPrefix(calleeName(x), "bytes.") || strings.HasPrefix(calleeName(x), "strings.")
+						}
+					}
+					r.Touch(f)
+					r.Decide("flow", fmt.Sprintf("%s: x[:0] #%d re-uses a slice made here", fnName(f), ord), fresh, "the slice was made in this function", "a slice that belongs to the message (a header's value list) is emptied and refilled in place: the message's own values are shifted and duplicated, and the forwarded headers differ from what was received", sl.Pos())
+				}
+			}
+		}
 		// the text logger fails an exchange only where it does today (snapshot and reader
 		// set-up): an error it returns becomes a Warning header on the forwarded message
 		for _, n := range []string{"Logger.ModifyRequest", "Logger.ModifyResponse"} {
@@ -549,6 +580,7 @@ func c15(r *Report) {
 	})
 
 	r.Guard("C15.R4", "an exchange marked skip-logging is recorded by no logger", func() {
+		freshContextUnmarkedRule(r)
 		contextFlagRules(r, "SkipLogging", "SkippingLogging")
 		for _, lt := range []struct{ pkg, typ string }{{"har", "Logger"}, {"martianlog", "Logger"}, {"marbl", "Modifier"}} {
 			T := w.Named(lt.pkg, lt.typ)
@@ -761,4 +793,37 @@ func snapshotBodyAfterCheckRule(r *Report) {
 func isExtractOfCallValue(v ssa.Value, c *ssa.Call) bool {
 	ex, ok := v.(*ssa.Extract)
 	return ok && ex.Tuple == ssa.Value(c)
+}
+
+// freshContextUnmarkedRule: the per-exchange marks start cleared: a context is
+// built with skipLogging, skipRoundTrip and apiRequest unset - not seeded
+// from the session or anything else that outlives the exchange. Shared by
+// C15.R4 and C17.R5 (an exchange that follows a skip-logged one on the same
+// connection is recorded like any other).
+func freshContextUnmarkedRule(r *Report) {
+	w := r.W
+	n := 0
+	for _, f := range w.Funcs("") {
+		for _, a := range allocsOf(f, M+".Context") {
+			n++
+			fs := litFieldStores(a)
+			bad := ""
+			for _, fld := range []string{"skipLogging", "skipRoundTrip", "apiRequest", "flags"} {
+				for _, st := range fs[fld] {
+					if k, isK := constBool(st.Val); isK && !k {
+						continue
+					}
+					if k, isK := constInt(st.Val); isK && k == 0 {
+						continue
+					}
+					bad = fld
+				}
+			}
+			r.Touch(f)
+			r.Decide("flow", fnName(f)+": a new context starts with its marks cleared", bad == "", "skipLogging / skipRoundTrip / apiRequest are left at their zero value", "a new context is built with "+bad+" taken from somewhere else (the session): the mark of one exchange applies to every later exchange of the connection, which is then not logged (or not forwarded, or not verified)", a.Pos())
+		}
+	}
+	if n == 0 {
+		r.Undecided("M.Context literal", "UNRESOLVED")
+	}
 }
